@@ -935,9 +935,13 @@ class EvolutionSuperOperator(SuperOperator, TimeDependent, Saveable):
             
             HOmega = ham.get_RWA_skeleton()
             
+            # the superoperator is the identity at the first point of its
+            # time axis; the rotating frame is referred to that time
+            t0 = self.time.data[0]
+            
             for i, t in enumerate(self.time.data):
                 # evolution operator
-                Ut = numpy.diag(numpy.diag(numpy.exp(-sgn*1j*HOmega*t)))
+                Ut = numpy.diag(numpy.diag(numpy.exp(-sgn*1j*HOmega*(t-t0))))
                 Uc = numpy.conj(Ut)
                 
                 # revert RWA
